@@ -990,6 +990,21 @@ def c20_table():
                     sc.append("rcopy %s1 %s0" % (k, k))
                     sc.append(tmpl.format(*order))
                     scripts.append(sc)
+    # the same stray copy in both argument positions (aliased arguments)
+    for tmpl, kinds in CALLS:
+        if len(kinds) == 2 and kinds[0] == kinds[1]:
+            k = kinds[0]
+            for state in STATES[k]:
+                for cp in ("rcopy", "rmemcpy"):
+                    sc = list(_setup(k, state, k + "0", None))
+                    sc.append("%s %s1 %s0" % (cp, k, k))
+                    sc.append(tmpl.format(k + "1", k + "1"))
+                    scripts.append(sc)
+                # and a proper object aliased with itself never aborts
+                sc = list(_setup(k, state, k + "0", None))
+                sc.append(tmpl.format(k + "0", k + "0"))
+                sc += _after_copy(k, state, k + "0") if state not in ("weak-only", "dead") else []
+                scripts.append(sc)
     return scripts
 
 
